@@ -70,7 +70,8 @@ def evaluate(case):
                     'of the peak-centred table of -x (or differs from the table with samples): ' + dd, evals=nev)
     if o['burst_method'] == 'cycles':
         from bycycle.burst import recompute_edges
-        thr = S.call_kwargs(o)['threshold_kwargs']
+        from bcmc.ref.burst import CYC_DEFAULTS
+        thr = S.call_kwargs(o).get('threshold_kwargs') or dict(CYC_DEFAULTS)      # ('nothr': thresholds omitted -> documented defaults)
         red = {k: (max(v - .1, 0) if k.endswith('threshold') else v) for k, v in thr.items()}
         et, ep = recompute_edges(dt, dict(red)), recompute_edges(dp, dict(red))
         nev += 2
